@@ -64,8 +64,9 @@ RULE = ("(a) seeded random class specifications (harness/initgen.py option space
         "hash equality and assignment with the clean build; (b) field-name sets built from prefixes and "
         "suffixes of the naming scheme with random roles, compared with the same class under innocuous "
         "names; (b') init aliases equal or close to names the generated __init__ uses; (c) inspect.getsource "
-        "/ linecache / recompilation of every generated method; (c') the cached-property __getattr__ "
-        "wrapper; (d) histories of up to 6 same-module classes over qualnames K, K-1, K-2 with repeated "
+        "/ linecache / recompilation of every generated method (recognised by the doc string "
+        "_add_method_dunders leaves, not by the predicted filename), also exhaustively over slots x frozen x "
+        "cache_hash x unsafe_hash x init; (c') the cached-property __getattr__ wrapper; (d) histories of up to 6 same-module classes over qualnames K, K-1, K-2 with repeated "
         "and distinct bodies and garbage collection in between; (e) 2/4/8 threads defining same-qualname "
         "classes with different bodies under sys.setswitchinterval(1e-6), 60% of them with a trace hook that "
         "yields between the lines of _linecache_and_compile; (f) in a fresh interpreter 40 classes defined in ONE "
@@ -416,10 +417,16 @@ METH = {"__repr__": "MRepr", "__eq__": "MEq", "__hash__": "MHash", "__init__": "
 
 
 def generated_funcs(cls):
+    """The attrs-generated script methods of the class, recognised by what _add_method_dunders
+    leaves on them (or by an '<attrs generated' filename of any kind) - NOT by the filename the
+    model predicts: a generated method compiled elsewhere must still be observed."""
     out = []
     for n in SCRIPT_METHODS:
         f = cls.__dict__.get(n)
-        if isinstance(f, types.FunctionType) and f.__code__.co_filename.startswith("<attrs generated methods"):
+        if not isinstance(f, types.FunctionType):
+            continue
+        doc = f.__doc__ or ""
+        if doc.startswith("Method generated by attrs for class") or f.__code__.co_filename.startswith("<attrs generated"):
             out.append((n, f))
     return out
 
@@ -929,15 +936,20 @@ def source_obs(cls, kind="methods"):
         funcs = [("__getattr__", f)] if f is not None else []
     fname = funcs[0][1].__code__.co_filename if funcs else ""
     obs.append(("one-file", all(f.__code__.co_filename == fname for _, f in funcs)))
-    text = script_of(fname)
-    obs.append(("linecache-entry", bool(text)))
-    try:
-        top = compile(text, fname, "exec")
-    except SyntaxError:
-        top = None
-    obs.append(("entry-compiles", top is not None))
+    tops = {}
+    for n, f in funcs:
+        fn_ = f.__code__.co_filename
+        if fn_ not in tops:
+            text_ = script_of(fn_)
+            try:
+                tops[fn_] = (text_, compile(text_, fn_, "exec") if text_ else None)
+            except SyntaxError:
+                tops[fn_] = (text_, None)
+        obs.append((n + ":linecache-entry", bool(tops[fn_][0])))
+        obs.append((n + ":entry-compiles", tops[fn_][1] is not None))
     for n, f in funcs:
         code = f.__code__
+        text, top = tops[code.co_filename]
         rec = find_code(top, code.co_name, code.co_firstlineno) if top is not None else None
         obs.append((n + ":recompiled-code-equal", rec is not None and code_equal(rec, code, True)))
         try:
@@ -1380,6 +1392,49 @@ def getattr_cases(seed, has_original, which=None):
             e.close()
 
 
+# ---- family (c''): every generated method over the class-option grid ---------------------------
+
+
+def grid_source_cases(which=None):
+    """slots x frozen x cache_hash x unsafe_hash x init: inspect/linecache/compile observations for EVERY
+    generated method (__repr__, __eq__, __hash__ with and without cache, __init__ / __attrs_init__, and the
+    cached-property __getattr__ of slotted classes)."""
+    out = []
+    for slots, frozen, cache, uh, init in itertools.product([False, True], repeat=5):
+        tag = "s%d f%d c%d u%d i%d" % (slots, frozen, cache, uh, init)
+        if which is not None and which != tag:
+            continue
+        e = Env("clean")
+        try:
+            kw = {"slots": slots, "frozen": frozen, "init": init}
+            if cache:
+                kw["cache_hash"] = True
+            if uh:
+                kw["unsafe_hash"] = True
+            H = {"deco": attr.s, "kw": kw, "ib": attr.ib, "Factory": attr.Factory,
+                 "cp": functools.cached_property(lambda self: 1)}
+            text = ('@H["deco"](**H["kw"])\nclass K:\n    x = H["ib"](default=1)\n'
+                    '    y = H["ib"](default=H["Factory"](list), eq=False)\n' + ('    cp = H["cp"]\n' if slots else '') + 'K_ = K\n')
+            e.ns["H"] = H
+            try:
+                exec(compile(text, "<c17 %s>" % e.name, "exec"), e.ns)
+            except TypeError:
+                continue            # cache_hash without hashing: rejected by attrs (C04's table)
+            cls = e.ns["K_"]
+            inp = {"family": "grid", "variant": tag}
+            tcs = types.SimpleNamespace(cls=cls, text=text)
+            names = [n for n, _ in generated_funcs(cls)]
+            c = src_case(tcs, inp)
+            c.seen["generated_methods"] = names
+            out.append(c)
+            if "__getattr__" in cls.__dict__:
+                c2 = src_case(tcs, dict(inp, kind="getattr"), kind="getattr")
+                out.append(c2)
+        finally:
+            e.close()
+    return out
+
+
 # ---- families (d), (e): linecache ----------------------------------------------------------
 
 BODIES = [[], ["a"], ["b"], ["a", "b"], ["c"], ["a", "c"], ["b", "c"], ["a", "b", "c"], ["d"], ["a", "d"],
@@ -1408,19 +1463,19 @@ def define_plain(module_dict, qual, body_id):
 
 
 def own_source_ok(cls, body_id):
-    """Is the linecache entry under the class's co_filename the source of the code it runs?"""
-    f = cls.__dict__.get("__init__")
-    if f is None:
+    """Is the linecache entry under each generated method's co_filename the source of the code it runs?"""
+    funcs = generated_funcs(cls)
+    if not funcs:
         return False
-    fname = f.__code__.co_filename
-    text = script_of(fname)
-    if not text:
-        return False
-    try:
-        top = compile(text, fname, "exec")
-    except SyntaxError:
-        return False
-    for n, fn in generated_funcs(cls):
+    for n, fn in funcs:
+        fname = fn.__code__.co_filename
+        text = script_of(fname)
+        if not text:
+            return False
+        try:
+            top = compile(text, fname, "exec")
+        except SyntaxError:
+            return False
         rec = find_code(top, fn.__code__.co_name, fn.__code__.co_firstlineno)
         if rec is None or not code_equal(rec, fn.__code__, True):
             return False
@@ -1641,6 +1696,7 @@ def generate(tier, seed):
         cs = safe(alias_cases, {"family": "alias", "spec": describe(spec), "seed": sd, "variant": "model"}, spec, sd)
         cases.extend(cs)
         _dist["alias-specs"] += bool(cs)
+    cases.extend(safe(grid_source_cases, {"family": "grid", "variant": "all"}))
     for ho in (False, True):
         sd = rng.randrange(1 << 30)
         cases.extend(safe(getattr_cases, {"family": "getattr", "has_original": ho, "variant": "clean", "seed": sd}, sd, ho))
@@ -1665,6 +1721,10 @@ def _rerun(inp):
         return cs[0]
     if fam == "getattr":
         cs = getattr_cases(inp["seed"], inp["has_original"], which=inp["variant"])
+        return cs[0]
+    if fam == "grid":
+        cs = grid_source_cases(which=inp["variant"])
+        cs = [c for c in cs if c.inp.get("kind") == inp.get("kind")] or cs
         return cs[0]
     if fam == "repeat":
         return repeat_case(inp["bind"], inp["n"])
